@@ -31,6 +31,8 @@ func runMonitors(cfg CheckConfig, res *hx.Result, traces []*Trace) error {
 		return monitorC11(cfg, res, traces)
 	case "C10":
 		return monitorC10(cfg, res, traces)
+	case "C13":
+		return monitorC13(cfg, res, traces)
 	}
 	return nil
 }
@@ -41,6 +43,8 @@ func specViolation(cfg CheckConfig, res *hx.Result, key, what string, u *Univers
 		replayFile{Property: cfg.Prop, Kind: "spec", What: what, Ops: ops, Lines: lines})
 	res.Violate(hx.Violation{Kind: "spec", Key: key, What: what, Replay: path})
 }
+
+var infoReq = abcitypes.RequestInfo{}
 
 // ---------------------------------------------------------------- C12
 
